@@ -820,4 +820,77 @@ example : (stepF 3 sS (.castVal 0 .str .lval, .newFails 0)).2 = .threw ∧
 example : liveOfTag sS .probe = 1 ∧ specLiveOfTag 3 (absPool sS) .probe = 1 ∧ liveOfTag sS .str = 1 ∧
           viewSlot sS 1 = specViewSlot (absPool sS) 1 ∧ (viewSlot sS 1).isSome = true := by decide
 
+/-! #### frame property and observational equivalence, with faults -/
+
+theorem specStepF_frame (n : Nat) (p : APool) (x : Op × Fault) (j : Nat) (h : mentions j x.1 = false) :
+    (specStepF n p x).1 j = p j := by
+  obtain ⟨op, f⟩ := x
+  cases f with
+  | none => exact specStep_frame n p op j h
+  | copyThrows =>
+    show (specStepX n p (op, true)).1 j = p j
+    unfold specStepX
+    cases specCopied n p op with
+    | none => exact specStep_frame n p op j h
+    | some v =>
+      by_cases ht : v.tag = .thr
+      · simp [ht]
+      · simp only [ht, if_false]; exact specStep_frame n p op j h
+  | newFails k =>
+    show (if k < (specNews n p op).length then (p, Out.threw) else specStep n p op).1 j = p j
+    split
+    · rfl
+    · exact specStep_frame n p op j h
+
+/-- No operation reaches a container it does not name — also when it faults: any continuation with faults of
+    any history with faults that does not name container j leaves j exactly as it was. -/
+theorem independent_of_others_f (n : Nat) (xs more : List (Op × Fault)) (j : Nat)
+    (h : ∀ x ∈ more, mentions j x.1 = false) :
+    absPool (runF n (runF n init xs) more) j = absPool (runF n init xs) j := by
+  have key : ∀ (l : List (Op × Fault)) (s : St), Inv n s → (∀ x ∈ l, mentions j x.1 = false) →
+      absPool (runF n s l) j = absPool s j := by
+    intro l
+    induction l with
+    | nil => intros; rfl
+    | cons x rest ih =>
+      intro s hs hl
+      show absPool (runF n (stepF n s x).1 rest) j = _
+      rw [ih _ (inv_stepF x hs) (fun o ho => hl o (List.mem_cons_of_mem _ ho)), (stepF_refines hs x).1]
+      exact specStepF_frame n _ x j (hl x List.mem_cons_self)
+  exact key more _ (own_of_fops n xs) h
+
+/-- the outputs of a continuation -/
+def outsF (n : Nat) : St → List (Op × Fault) → List Out
+  | _, [] => []
+  | s, x :: rest => (stepF n s x).2 :: outsF n (stepF n s x).1 rest
+
+/-- Full abstraction: two states satisfying the invariant that show the same abstract pool — however different
+    their heaps, cell numbers and ghost logs — cannot be told apart by any continuation with faults: same outputs
+    (results, cast outcomes, `threw`), same abstract pool afterwards.  A client can rely on the value-semantic
+    reading alone. -/
+theorem observational_equivalence (n : Nat) (s1 s2 : St) (h1 : Inv n s1) (h2 : Inv n s2)
+    (heq : absPool s1 = absPool s2) (xs : List (Op × Fault)) :
+    outsF n s1 xs = outsF n s2 xs ∧ absPool (runF n s1 xs) = absPool (runF n s2 xs) := by
+  induction xs generalizing s1 s2 with
+  | nil => exact ⟨rfl, heq⟩
+  | cons x rest ih =>
+    have e1 := stepF_refines h1 x
+    have e2 := stepF_refines h2 x
+    have hst : absPool (stepF n s1 x).1 = absPool (stepF n s2 x).1 := by rw [e1.1, e2.1, heq]
+    have hout : (stepF n s1 x).2 = (stepF n s2 x).2 := by rw [e1.2, e2.2, heq]
+    obtain ⟨ih1, ih2⟩ := ih _ _ (inv_stepF x h1) (inv_stepF x h2) hst
+    exact ⟨by simp only [outsF, hout, ih1], ih2⟩
+
+/-- non-vacuity: two reachable states with different heaps (cell 0 vs cell 2 after a detour) and the same abstract pool -/
+example : absPool (run 3 init [.ctorVal 0 .rref p7]) =
+          absPool (run 3 init [.ctorVal 0 .lref sx, .ctorVal 1 .rref p7, .asgnAny 0 1 .rref, .destroy 1]) := by
+  funext k
+  match k with
+  | 0 => decide
+  | 1 => decide
+  | 2 => decide
+  | k + 3 => rfl
+example : content (run 3 init [.ctorVal 0 .rref p7]) (.named 0) = some 0 ∧
+          content (run 3 init [.ctorVal 0 .lref sx, .ctorVal 1 .rref p7, .asgnAny 0 1 .rref, .destroy 1]) (.named 0) = some 1 := by decide
+
 end BFL.C20
